@@ -129,3 +129,43 @@ def compare_flags(ck, rule, case, vec, spec_pos, extra=None):
 def class_of_mismatch(m):
     """stable key fragment for a table mismatch: which flags instead of which"""
     return f"got={'/'.join(m['got'])}:allowed={'/'.join(m['allowed'])}"
+
+
+def table_rule(ck, rule, case, spec, scope='present'):
+    """run one scenario and compare the resulting order-cell tables with the spec.
+
+    scope: 'present' - positions whose tested observation is missing are left to C02
+           'all'     - every position
+           'missing' - C02's projection: missing positions exactly; at present positions only the use of MISSING
+    """
+    out = run_case(ck, case)
+    if not expect_raise(ck, rule + ('.reject' if spec.rejects else '.total'), case, out, spec.rejects,
+                        'invalid parameters must be rejected'):
+        return None
+    if spec.rejects:
+        return None
+    vec = result_vec(ck, rule, case, out)
+    if vec is None:
+        return None
+    if len(vec) != case.n:
+        ck.violate(rule + '.shape', f'{fn_key(case)}:length', f'{case.test} returns {len(vec)} flags for {case.n} inputs',
+                   dict(case=case.label))
+        return None
+
+    def pos(p):
+        missing = spec.is_missing(p) if hasattr(spec, 'is_missing') else case.pat.get('inp', 'p' * case.n)[p] == 'm'
+        if scope == 'present' and missing:
+            return None
+        qs, allowed = spec.pos(p)
+        if scope == 'missing' and not missing:
+            return qs, (lambda cell: allowed(cell) | {G, U, S, F})
+        return qs, allowed
+    res = compare_flags(ck, rule, case, vec, pos)
+    for m in res.mismatches:
+        ck.violate(rule + '.table', f'{fn_key(case)}:{case.meta.get("class", "")}:{class_of_mismatch(m)}',
+                   f"{case.label}: position {m['where'].rsplit('@', 1)[-1].strip()} cell {m['cell']} gives "
+                   f"{[FLAGNAME.get(int(g), g) if str(g).isdigit() else g for g in m['got']]}, the property allows "
+                   f"{[FLAGNAME.get(int(g), g) for g in m['allowed']]}" + (f"; witness {m['witness']}" if m.get('witness') else ''), m)
+    if not res.mismatches:
+        ck.hold(rule + '.table', case.label)
+    return out
